@@ -282,6 +282,9 @@ impl<'a> LoweringContext<'a> {
         let saved_names = std::mem::take(&mut self.locals_by_name);
         let saved_aliases = std::mem::take(&mut self.block_aliases);
         let saved_pending = self.pending_block_id.take();
+        // block ids are per function: a loop of the enclosing function is not a
+        // break/continue target for the nested one
+        let saved_loops = std::mem::take(&mut self.loop_stack);
         let saved_next_local = self.next_local_id;
         let saved_next_block = self.next_block_id;
         self.next_local_id = 0;
@@ -303,6 +306,7 @@ impl<'a> LoweringContext<'a> {
         self.locals_by_name = saved_names;
         self.block_aliases = saved_aliases;
         self.pending_block_id = saved_pending;
+        self.loop_stack = saved_loops;
         self.next_local_id = saved_next_local;
         self.next_block_id = saved_next_block;
     }
